@@ -192,6 +192,9 @@ def make_rank_main(trace: dict, outs: list[RankOut], build=None):
                 ]
             elif ev["op"] == "set_hparam":
                 opt.param_groups[ev["group"]][ev["key"]] = ev["value"]
+            elif ev["op"] == "poke":
+                with torch.no_grad():
+                    params[ev["param"]].mul_(ev["scale"])
             ctx.progress = ei + 1
             sim.record("event_done", ei)
             sim.yield_()
@@ -352,6 +355,10 @@ def compare_with_serial(
         if ev["op"] == "set_hparam":
             twin.opt.param_groups[ev["group"]][ev["key"]] = ev["value"]
             continue
+        if ev["op"] == "poke":
+            # the same in-place rescaling every rank applied to its copy (same dtype, same rounding)
+            prev[ev["param"]] = prev[ev["param"]] * ev["scale"]
+            continue
         if ei not in outs[0].snaps:
             break
         twin.resync(prev)
@@ -471,6 +478,9 @@ def compare_with_twin(
             break
         if ev["op"] == "set_hparam":
             twin.opt.param_groups[ev["group"]][ev["key"]] = ev["value"]
+            continue
+        if ev["op"] == "poke":
+            prev = [(v * ev["scale"] if layout[ti][0] == ev["param"] else v) for ti, v in enumerate(prev)]
             continue
         if ei not in out.snaps:
             break
